@@ -431,6 +431,27 @@ def run_free(case, seed, R):
                     wb[embed_index(si, wantQ.shape)] = x.ravel()
                     R.expect_close(np.asarray(getattr(back, 'data', None)).reshape(-1) if np.shape(getattr(back, 'data', None)) == wantQ.shape else None,
                                    wb, 2 * t, f'Wavefront.free_space:inverse:{cell}:Q={Q}', f'free_space(-z) after free_space(z, Q={Q}) does not return the field, z={z}')
+        # argument forms of the scalar parameters: numpy scalars and 0-d / one-element arrays (what a table of wavelengths, a config
+        # array or a unit conversion hands over); the SAME objects go into two successive propagations (z, then -z), so a routine that
+        # converts units in place on its argument is seen by the hygiene layer and by the second call
+        if prec == 64:
+            z = ZS[1] if len(ZS) > 1 else ZS[0]
+            t = K_FS * eps * (1 + phase_max(si, z)) * max(1.0, math.sqrt(e0)) * 4
+            want = (A1[z] @ x.ravel().astype(complex)).reshape(si)
+            for fname, mk in (('np.float64', np.float64), ('0d-array', lambda v: np.array(float(v))), ('1-element-array', lambda v: np.array([float(v)]))):
+                fw, fd, fz, fnz = mk(wvl), mk(dx), mk(z), mk(-z)
+                got = R.call(propagation.angular_spectrum, x.copy(), fw, fd, fz, 1, sig=f'angular_spectrum:form-{fname}:exception')
+                R.expect_close(got, want, t, f'angular_spectrum:scalar-form:{fname}', f'angular_spectrum with wvl, dx, z given as {fname} vs python floats, z={z}')
+                if got is not FAILED:
+                    back = R.call(propagation.angular_spectrum, np.asarray(got).copy(), fw, fd, fnz, 1, sig=f'angular_spectrum:form-{fname}:exception')
+                    R.expect_close(back, x.astype(complex), 2 * t, f'angular_spectrum:scalar-form:{fname}', f'AS(-z) AS(z) with the SAME {fname} wavelength / spacing objects does not return the field')
+                wv = Wavefront(x.copy(), fw, fd, 'pupil')
+                o = R.call(wv.free_space, fz, 1, sig=f'Wavefront.free_space:form-{fname}:exception')
+                if o is not FAILED:
+                    R.expect_close(getattr(o, 'data', None), want, t, f'Wavefront.free_space:scalar-form:{fname}', f'free_space on a Wavefront whose wavelength / dx are {fname}')
+                    b2 = R.call(o.free_space, fnz, 1, sig=f'Wavefront.free_space:form-{fname}:exception')
+                    if b2 is not FAILED:
+                        R.expect_close(getattr(b2, 'data', None), x.astype(complex), 2 * t, f'Wavefront.free_space:scalar-form:{fname}', f'free_space(-z) after free_space(z), wavelength / dx held as {fname}')
         R.nontrivial(n > 1)
         R.outcome(f'free:{p}')
     finally:
